@@ -124,6 +124,15 @@ class _InlineFunction(XPathFunction):
                     raise self.error('XPTY0004', msg.format(varname, v, sequence_type))
 
             elif not match_sequence_type(v, sequence_type, self.parser):
+                if sequence_type.startswith('xs:') and (
+                        isinstance(v, XPathNode)
+                        or isinstance(v, list) and any(isinstance(x, XPathNode) for x in v)):
+                    # function conversion rules: nodes are atomized for an atomic parameter type
+                    values = [a for x in (v if isinstance(v, list) else [v])
+                              for a in self.atomize_item(x)]
+                    v = values[0] if len(values) == 1 else values
+                    if match_sequence_type(v, sequence_type, self.parser):
+                        return v
                 _v = self.cast_to_primitive_type(v, sequence_type)
                 if not match_sequence_type(_v, sequence_type, self.parser):
                     msg = "argument '${}': {} does not match sequence type {}"
